@@ -47,7 +47,7 @@ FILES = {
 DEPS = [
     ("Route", ["Node.vo", "Tree.vo", "HostPort.vo", "Iter.vo", "HostEquiv.vo", "Props_C09_host.vo"], None),
     ("Dispatch", ["Redirect.vo"], None),
-    ("C17", ["Model.vo", "Spec.vo", "Proofs.vo", "ProofsModel.vo"], ("Props_Gen_C17.v",)),   # BridgeC17.v
+    ("C17", ["Model.vo", "Spec.vo", "Proofs.vo", "ProofsModel.vo", "ProofsLen.vo"], ("Props_Gen_C17.v",)),   # BridgeC17.v
     ("Pattern", ["Props_C10.vo"], ("Props_Gen_C10.v",)),      # BridgeC10.v: the model and C10's own theorems
     # BridgeWild.v: the three models, C10's parseWildcard_never_panics, C15's sensitive_is_blacklisted
     ("Pattern", ["ParseWildcard.vo", "ProofsWild.vo"], ("Props_Gen_wild.v",)),
